@@ -664,6 +664,13 @@ func replayOne(b rep.Behaviour, idx int, opt stack.Options, cacheMode bool) (ok 
 			rep.Violation("C12:notification-order:"+why, fmt.Sprintf("after Deliver(%d) [%s]: %s", id, why, d), c)
 			return false
 		}
+		if poolMode && !rep.Bool(st, "clean") {
+			// the chain changed without the post-block cleanup running afterwards (a failed switch that was
+			// rolled back ends in an error, no "processed" notification): C34 speaks about the pool after the
+			// node's cleanup, and until the next one the pool's transient content (CleanSubmittedTransactions
+			// drops the block transactions' keys whoever owns them) is not modelled.  The behaviour ends here.
+			return true
+		}
 		if poolMode {
 			if key, d := w.poolCheck(st); key != "" {
 				rep.Violation(key+":after-deliver-"+why, fmt.Sprintf("after Deliver(%d) [%s]: %s", id, why, d), c)
